@@ -422,7 +422,7 @@ func init() {
 			"Dump, then LoadProg under every read delivery of a bounded family (whole, 1 byte/read, data+EOF, halves, every fixed size 2..17 and 4095..4097, every partition with <=k cut points: k=1 for dumps <=6000 B, k=2 for <=150 B (thorough <=900 B), k=3 for <=48 B (thorough <=110 B)); " +
 			"oracle: nil errors, identical disassembly, identical execution (output, blocks, binding, warnings, error text incl. position), byte-identical re-dump (also after loading the dump twice with the exported Load method into a Prog that held a larger program), and the independent decoder recovers the name and a line table equal to the newline offsets of the source. Thorough adds every program of the C01-C04 enumerations under the whole / 1-byte / fixed-size deliveries. A case is (program, name); counters.loads counts LoadProg calls. Sub-check c09.dumpfaults: Dump of 8 programs (small; string constants of 5-20 kB; 9-40 kB of code; long names) into a destination that fails after k bytes (every k for small dumps; first/last 300, buffer boundaries +-3 and every 61st for large ones; with and without a partial last write) must return an error.",
 		Subs:           []*fw.Sub{subC09, subC09Fault},
-		BudgetQuick:    100,
+		BudgetQuick:    170,
 		BudgetThorough: 1500,
 		Assumptions:    []string{"float constants limited to the boundary bit patterns of the corpus; sizes below 2^24"},
 		Run: func(c *fw.Ctx) {
@@ -485,13 +485,6 @@ func init() {
 					return
 				}
 			}
-			// the sizes in between the boundaries: every length / count up to a bound
-			for _, s := range gen.DenseFamilies(c.Thorough()) {
-				c.Do(subC09, &c09Case{Name: "D:" + s.Name, Src: s.Src, PName: "input", Cuts: 0})
-				if c.Expired() {
-					return
-				}
-			}
 			// string constants beyond one mebibyte (a loader reading in 1 MiB pieces)
 			for _, L := range []int{1048575, 1048576, 1048577, 1600000, 2097152, 2097153} {
 				c.Do(subC09, &c09Case{Name: fmt.Sprintf("megastring-%d", L), Src: `var s = "` + strings.Repeat("m", L) + `"` + "\nprint 1\ndef b { f = \"tail\" }", PName: "input", Cuts: 0})
@@ -508,6 +501,13 @@ func init() {
 			}
 			for _, L := range []int{0, 1, 93, 94, 95, 239, 240, 241, 242, 2287, 2288, 4092, 4093, 4094, 4095, 4096, 4097, 8192, 67823, 67824} {
 				c.Do(subC09, &c09Case{Name: fmt.Sprintf("pname-%d", L), Src: `var a=1; def b "nm" { x = a+2.5; print "s"+x } bind b->struct`, PName: strings.Repeat("n", L), Cuts: 1})
+			}
+			// the sizes in between the boundaries: every length / count up to a bound
+			for _, s := range gen.DenseFamilies(c.Thorough()) {
+				c.Do(subC09, &c09Case{Name: "D:" + s.Name, Src: s.Src, PName: "input", Cuts: 0})
+				if c.Expired() {
+					return
+				}
 			}
 		},
 		Finish: func(m *fw.Merged) []string {
